@@ -71,6 +71,64 @@ class {name}(cohdl.Entity):
     return e
 
 
+def delayline_design(name, n, w, initial, in_ctx):
+    """DelayLine(inp, n, initial, ctx): "line[k] is inp delayed by k", last() by n; defined outside a context with `ctx=` or
+    inside a sequential context (every element shown through a concurrent assignment, so no extra register)"""
+    outs = "\n".join(f"    o{k} = Port.output(Unsigned[{w}])" for k in range(1, n + 1))
+    shows = "\n".join(f"        std.concurrent_assign(self.o{k}, line[{k}])" for k in range(1, n)) + \
+            f"\n        std.concurrent_assign(self.o{n}, line.last())"
+    if in_ctx:
+        make = f"""        line = None
+
+        @std.sequential(std.Clock(self.clk))
+        def proc():
+            nonlocal line
+            line = std.DelayLine(self.d, {n}, initial={initial})
+"""
+        # elements are only reachable from inside the context: show them through registers declared outside
+        shows = "\n".join(f"            self.o{k} <<= line[{k}]" for k in range(1, n)) + f"\n            self.o{n} <<= line.last()"
+        src = f"""
+class {name}(cohdl.Entity):
+    clk = Port.input(Bit)
+    d = Port.input(Unsigned[{w}])
+{outs.replace("])", f"], default={initial})")}
+
+    def architecture(self):
+        @std.sequential(std.Clock(self.clk))
+        def proc():
+            line = std.DelayLine(self.d, {n}, initial={initial})
+{shows}
+"""
+    else:
+        src = f"""
+class {name}(cohdl.Entity):
+    clk = Port.input(Bit)
+    d = Port.input(Unsigned[{w}])
+{outs}
+
+    def architecture(self):
+        ctx = std.SequentialContext(std.Clock(self.clk))
+        line = std.DelayLine(self.d, {n}, initial={initial}, ctx=ctx)
+{shows}
+"""
+    ty = T("u", w)
+    regs = [obj(f"r{i}", "signal", ty, default=initial) for i in range(1, n + 1)]
+    chain = ["d"] + [f"r{i}" for i in range(1, n + 1)]
+    body = [assign("next", chain[i + 1], ref(chain[i])) for i in range(n)]
+    if in_ctx:
+        # o_k <<= line[k] inside the same clocked context: one more register per tap
+        ports = [port("clk", "in", BIT), port("d", "in", ty)] + [port(f"o{k}", "out", ty, default=initial) for k in range(1, n + 1)]
+        body += [assign("next", f"o{k}", ref(f"r{k}")) for k in range(1, n + 1)]
+        ctxs = [seq_ctx("proc", body)]
+    else:
+        ports = [port("clk", "in", BIT), port("d", "in", ty)] + [port(f"o{k}", "out", ty) for k in range(1, n + 1)]
+        ctxs = [seq_ctx("proc", body), conc_ctx("show", [assign("next", f"o{k}", ref(f"r{k}")) for k in range(1, n + 1)])]
+    e = entity(name, ports, regs, ctxs)
+    e["source_override"] = src
+    e["family"] = f"delayline_{n}_w{w}_init{initial}_{'inctx' if in_ctx else 'ctxarg'}"
+    return e
+
+
 def counter_design(name, limit):
     """continuous_counter(ctx, limit): 'produces the sequence 0-1-2-..-limit-0-1-...'"""
     w = max(1, limit.bit_length())
@@ -331,6 +389,10 @@ def component_designs(tier):
     for limit in (1, 2, 3, 4, 5, 7):
         ents.append(counter_design(f"E16D_{k:03d}", limit))
         k += 1
+    for n in (1, 2, 3) if tier == "quick" else (1, 2, 3, 4):
+        for w, init, in_ctx in ((1, 0, False), (2, 2, True), (1, 1, True), (2, 1, False)):
+            ents.append(delayline_design(f"E16L_{k:03d}", n, w, init, in_ctx))
+            k += 1
     for period in (1, 2, 3, 4, 5, 6) + (() if tier == "quick" else (7, 8, 9)):
         for init in (0, 1):
             ents.append(debounce_design(f"E16D_{k:03d}", period, init))
